@@ -147,6 +147,12 @@ def flushLoop (closed : Bool) : Option Pt → List Segm → List Call
     | .qcurve => .qCurveTo s.pts s.blob :: flushLoop closed s.endPt rest
     | .move => flushLoop closed lastPt rest
 
+/-- `if movePt is None: pass else: pen.moveTo(movePt)` -/
+def moveCall (movePt : Option Pt) : List Call :=
+  match movePt with
+  | some p => [.moveTo p]
+  | none => []
+
 /-- `PointToSegmentPen._flushContour` -/
 def flush (segs : List Segm) : List Call :=
   match segs with
@@ -158,7 +164,7 @@ def flush (segs : List Segm) : List Call :=
       | some mp => .moveTo mp :: (flushLoop false (some mp) rest ++ [.endPath])
     else
       let movePt := (segs.getLast?.bind Segm.endPt)
-      (match movePt with | some p => [Call.moveTo p] | none => []) ++ flushLoop true movePt segs ++ [.closePath]
+      moveCall movePt ++ flushLoop true movePt segs ++ [.closePath]
 
 /-- a segment on which the real pens raise: `PenError` for a line with off-curves or a move that is
 not first; `unsupported` marks what this model does not port (super-beziers: more than two
